@@ -12,7 +12,7 @@ import (
 )
 
 var MSMTypes = []int{1074, 1077, 1084, 1087, 1094, 1097, 1104, 1107, 1114, 1117, 1124, 1127, 1134, 1137}
-var OtherTypes = []int{1005, 1006, 1019, 1020, 1033, 1230, 4095, 0, 1, 63, 1073, 1075, 1138}
+var OtherTypes = []int{1005, 1006, 1019, 1020, 1033, 1230, 4095, 0, 1, 63, 1073, 1075, 1138, 2, 4094, 2047, 2048}
 
 // TypeClass returns a message type from the i-th class (cycles through all classes).
 func TypeClass(rng *rand.Rand, i int) int {
